@@ -102,8 +102,13 @@ func (s *SuffrageStateBuilder) Build(
 				return lastheight, nil, nil, e.Wrap(err)
 			}
 
+			// NOTE the last fetched proof is of the same suffrage height with the
+			// last proof; it should be same.
+			if len(ps) < 1 || !ps[len(ps)-1].State().Hash().Equal(proof.State().Hash()) {
+				return lastheight, nil, nil, e.Errorf("last suffrage proof does not match with the proofs by height")
+			}
+
 			proofs = ps
-			proofs = append(proofs, proof)
 		}
 	}
 
